@@ -815,6 +815,14 @@ def weave_extract(ub, ex, rf, repo_root):
                         break
                     e += 1
                 body = code[b:e].strip()
+            # rewrite rules of the same function apply inside the closure body too (the closure edit replaces the whole closure text)
+            for d2 in directives:
+                if d2[0] == 'rewrite' and '=>' in d2[1]:
+                    k2 = d2[1].index('=>')
+                    try:
+                        body = re.sub(d2[1][1], d2[1][k2 + 1] if k2 + 1 < len(d2[1]) else '', body)
+                    except re.error:
+                        pass
             if payload and ''.join(payload).strip():
                 ens = '\n'.join(payload)
                 new = '%s -> (b: %s) %s { %s }' % (newp, ret, ens.strip(), body)
